@@ -9,7 +9,7 @@ CONSTANTS
   Udp = TRUE
   DefSched <- RealUdpSchedUs
   DefLast = 8000000
-  IdleWait = 2000000000
+  IdleWait = 1
   MaxTime = 0
   TickSet = {}
   ToAddrs = {}
